@@ -4,8 +4,8 @@
 (`simToks`: table-field separators excluded, as `Punctuated::similar` compares values only).
 -/
 import Selene.Lints.TraverseB
-namespace Selene.Lints.IfSameThenElse
-open Selene.Lua Selene.Lints
+namespace Selene.LintsB.IfSameThenElse
+open Selene.Lua Selene.LintsB
 
 def hasNoStmts : Block → Bool
   | .mk _ .nil _ => true
@@ -35,4 +35,4 @@ def collect (toks : List String) (seps : List Nat) : Node → List Diag
 
 def run (toks : List String) (seps : List Nat) (b : Block) : List Diag := (nBlock b).flatMap (collect toks seps)
 
-end Selene.Lints.IfSameThenElse
+end Selene.LintsB.IfSameThenElse
